@@ -79,6 +79,7 @@ PROP = dict(
     prop_targets=["Properties/C09.vo"],
     cases=dict(quick=1600, thorough=8000),
     release_too=True,
+    coqc_timeout=3000,          # a shard needs ~20 s of CPU; generous wall-clock limit for a loaded machine
     level="proof",
     rule="three streams: (1) bsearch -- random UNSORTED/sorted/constant u64 arrays (len 0..300) and keys, slice::binary_search and "
          "binary_search_by(never-Equal comparator) against Lib/Sorting.v; (2) HilbertCurve on 2-D/3-D point sets (uniform, clustered, "
@@ -103,6 +104,8 @@ PROP = dict(
     assumptions=[
         "HilbertCurve: points, weights and part ids have the same length; part_count >= 1; weights finite and non-negative",
         "ZCurve: points and part ids have the same length; part_count >= 1; order <= max_order (64 in 2-D, 42 in 3-D)",
+        "C09_hilbert_sched_indep (for C06) has the premise f64_add_exact_on_integers (f64 + exact on non-negative integers with sum <= 2^53, "
+        "DESIGN §6's named assumption; not derived from SpecFloat) and covers integer-valued non-negative weights with total <= 2^53",
         "geometric clause (the Z-order cell of a point contains the point): claimed for points that the top-level box contains, level by "
         "level while the midlines are eps-effective (c - eps < c < c + eps; void from magnitude 32 on, where HEAD's absolute tolerance "
         "10*EPSILON of BoundingBox::contains is below half an ulp)",
@@ -121,7 +124,7 @@ MANIFEST = dict(
          "for a point contains the point (f64 box arithmetic, wherever the code's tolerance is effective). Certified checkers judge every implementation output.",
     design_ref="DESIGN.md §7 C09",
     note="Trusted: Coq kernel; model<->code tie = translator (tolerance, order limits, dedup absence, chunk guard) + differential runs with "
-         "hook-recorded indices/codes/permutation; termination of weighted_quantiles proved for <= 2 parts only, otherwise unproved (fuel + watchdog). No axioms.",
+         "hook-recorded indices/codes/permutation; termination of weighted_quantiles proved for <= 2 parts only, otherwise unproved and not refuted (fuel + watchdog; cycle-detecting sweeps found no repeating state). No axioms.",
     technique="Coq proof (invariant of the library binary-search loop; induction on the quadrant recursion) + translator + "
               "model/implementation correspondence + certified checkers",
 )
